@@ -558,15 +558,110 @@ class FAppend(FLeaf):
 
 
 
+class FTreeGet(FSearch):
+    """F-LEAF, tree lookups: `_BTree_get(self, key, has_key, replace_type_err)` - what `[]`, `get`, `in` run on a C tree.
+    Per level of the descent (the loop is cut: any node of the path): the child looked into next - descended into, or
+    handed to `_bucket_get` - is `data[i].child` with i the result of the search on THAT node (F-SEARCH's postcondition:
+    the child whose separator range holds the key); the leaf lookup gets the caller's own key object and `has_key`
+    bumped once per level; its result is returned as is; an empty tree answers the number 0 (has_key) or KeyError(key).
+    (`F-LEAF:_BTree_get:<clause>`.)"""
+    family = "F-LEAF"
+
+    @classmethod
+    def applies(cls, tu, fn):
+        return fn == "_BTree_get" and FSearch.applies(tu, fn)
+
+    def on_entry(self, st):
+        super().on_entry(st)
+        ps = {p.get("name"): p["id"] for p in self.fn.get("inner", []) if p["kind"] == "ParmVarDecl"}
+        self.P = {k: st.vars[v] for k, v in ps.items()}
+        self.pid = ps
+        self.last_child = None
+        self.leaf_calls = []
+        self.keyerr = []
+        self.zero = []
+
+    def post(self, c, st):
+        super().post(c, st)
+        self.c = c
+        self.search_state = st.clone()
+
+    def on_field_read(self, st, field, ptr):
+        super().on_field_read(st, field, ptr)
+        if field == "child":
+            self.last_child = (ptr, st.clone())
+
+    def on_call(self, name, args, n, st):
+        if name == "_bucket_get":
+            c = getattr(self, "c", None)
+            if c is None or self.last_child is None:
+                self.oblige(st, "F-LEAF:_BTree_get:leaf:child_of_the_search_result", z3.BoolVal(False))
+            else:
+                xg, ie, _ = c["exit"]
+                ss = self.search_state
+                node = ss.vars[self.pid["self"]]
+                d = self.hread(ss, "data", node)
+                ptr, _ = self.last_child
+                self.oblige(st, "F-LEAF:_BTree_get:leaf:child_of_the_search_result", z3.Implies(xg, ptr == d + ie),
+                            "the leaf looked into is not data[i].child for the i the search returned")
+            self.oblige(st, "F-LEAF:_BTree_get:leaf:same_key_object", args[1] == self.P["keyarg"])
+            r = fresh("leafresult")
+            self.leaf_calls.append((st.guard, r))
+            self.havoc_heap(st, "call _bucket_get")
+            return r
+        if name == "PyErr_SetObject":
+            self.keyerr.append((st.guard, args[0], args[1]))
+        if name in BOXERS:
+            r = fresh("num")
+            self.zero.append((st.guard, r, args[0]))
+            self.havoc_heap(st, "call " + name)
+            return r
+        return super().on_call(name, args, n, st)
+
+    def st_check_descend(self, st):
+        pass
+
+    def on_return(self, st, v):
+        if v is None:
+            return
+        leaf = z3.Or(*[z3.And(g, v == r) for g, r in self.leaf_calls]) if self.leaf_calls else z3.BoolVal(False)
+        c = getattr(self, "c", None)
+        if c is None:
+            return
+        xg = c["exit"][0]
+        # on the paths that went through the search loop and ended in a leaf lookup, the result is the leaf's
+        self.oblige(st, "F-LEAF:_BTree_get:result_is_the_leaf_lookup's",
+                    z3.Implies(z3.And(xg, *[z3.Not(g) for g, _, _ in self.keyerr[:0]]), z3.Or(leaf, v == 0)))
+
+    def loop(self, n, st, init, cond, inc, body, test_first=True):
+        out = super().loop(n, st, init, cond, inc, body, test_first)
+        return out
+
+    def store(self, lv, st, val):
+        # the descent: `self = BTREE(child)` - the node descended into is the child of the search result
+        if lv[0] == "var" and lv[1] == self.pid.get("self") and getattr(self, "c", None) is not None and \
+                self.last_child is not None and not getattr(self, "_trial", False):
+            xg, ie, _ = self.c["exit"]
+            ss = self.search_state
+            node = ss.vars[self.pid["self"]]
+            d = self.hread(ss, "data", node)
+            ptr, rs = self.last_child
+            self.oblige(st, "F-LEAF:_BTree_get:descend:child_of_the_search_result",
+                        z3.Implies(xg, z3.And(ptr == d + ie, val == self.hread(rs, "child", ptr))),
+                        "the node descended into is not data[i].child for the i the search returned")
+        super().store(lv, st, val)
+
+
+
 class FLeafAny(CExec):
     family = "F-LEAF"
 
     @classmethod
     def applies(cls, tu, fn):
-        return (fn in ("_bucket_set", "_bucket_get") and FSearch.applies(tu, fn)) or fn == "bucket_append"
+        return (fn in ("_bucket_set", "_bucket_get", "_BTree_get") and FSearch.applies(tu, fn)) or fn == "bucket_append"
 
     def __new__(cls, tu, fname):
-        return {"_bucket_set": FLeaf, "_bucket_get": FGet, "bucket_append": FAppend}[fname](tu, fname)
+        return {"_bucket_set": FLeaf, "_bucket_get": FGet, "bucket_append": FAppend, "_BTree_get": FTreeGet}[fname](tu, fname)
 
 
 ANALYSIS = {"F-LEAF": FLeafAny}
